@@ -3,7 +3,9 @@
 Theorems (lean/CffiVerif/Props/C34.lean): external_resolves_to_origin, shared_struct_identity,
 constants_visible, lib_delegation_finds_first, lib_getattr, shared_ctype_partial
 (+ enum_ctype_per_module_witness) over the model of `_fetch_external_struct_or_union`,
-`ffi_fetch_int_constant` and `lib_build_and_cache_attr` (Model/Include.lean).
+`ffi_fetch_int_constant` and `lib_build_and_cache_attr` (Model/Include.lean); `lookup_order_is_source` ties the
+order of steps and the recursion bounds of the model to the C source (translate/c34_steps.py ->
+Generated/IncludeSteps.lean, regenerated every run).
 
 Tie to the code: random families of 2-4 cdefs forming chains and diamonds, where later ones
 include earlier ones and use their declarations, are exercised
@@ -41,7 +43,8 @@ MANIFEST = {
             "C34/anonymous-struct-name-collision-across-include: cparser numbers anonymous structs per parser, so an including "
             "module's own '$n' meets an included '$n' in its generated table and may be realised with no fields "
             "(deliberate stream in every run).",
-    "technique": "Lean 4 proof (induction over include depth and include lists) + correspondence with in-line FFIs, generated "
+    "technique": "Lean 4 proof (induction over include depth and include lists; step order and recursion bounds regenerated "
+                 "from lib_obj.c / ffi_obj.c and compared by decide) + correspondence with in-line FFIs, generated "
                  "out-of-line modules and compiled API-mode modules",
 }
 RULE = ("families of 2-4 cdefs; module i>0 includes 1-2 earlier modules in random order (chains, diamonds, re-inclusion "
@@ -60,6 +63,12 @@ CLASSES = {
     COLLISION: lambda case: case.get("kind") == "anon-struct-collision" and case.get("mode") in ("abi", "api")
     and case.get("collides") is True,
 }
+
+
+def translators(ctx):
+    sys.path.insert(0, os.path.join(common.VERIF, "translate"))
+    import c34_steps
+    return [lambda: c34_steps.run(common)]
 
 
 # ---------------------------------------------------------------------------- generator
